@@ -373,7 +373,7 @@ def r7(ck, hh):
         mp = seqmodel.Model([("N", lambda x, s=side: c01.fld(x, s + "_line")), ("c", lambda x, s=side: c01.fld(x, s + "_count"))], fn=ph)
         wrong = None
         try:
-            for n in range(0, 5):
+            for n in range(0, 12 if ck.tier == "thorough" else 5):
                 for c in range(0, 3):
                     if c > 0 and n == 0:
                         continue        # '-0,k' with k > 0 is not a header diff writes
